@@ -28,6 +28,8 @@ sed -i "s#^target-dir = .*#target-dir = \"$TG\"#" "$VC/harness/.cargo/config.tom
 cp "$WT/Cargo.lock" "$VC/harness/Cargo.lock"
 mkdir -p "$TG"
 export CARGO_INCREMENTAL=0
+# the harness must build into $TG (vlib looks under harness/target -> $TG): a caller's CARGO_TARGET_DIR would redirect it
+unset CARGO_TARGET_DIR
 # vlib expects binaries under harness/target
 ln -sfn "$TG" "$VC/harness/target"
 (cd "$VC" && VERIF_REPO="$WT" ./check "$@")
